@@ -112,6 +112,9 @@ where
     drive_opts(seed, total_cases, max_len, tolerated, 300, 1500, f)
 }
 
+/// ordinal of the next `drive_opts` call in this process
+static DRIVE_CALLS: std::sync::atomic::AtomicUsize = std::sync::atomic::AtomicUsize::new(0);
+
 thread_local! {
     /// per-call override of the shard count (used by checks whose cases spawn
     /// many OS threads themselves)
@@ -134,6 +137,23 @@ pub fn drive_opts<F>(
 where
     F: Fn(&[u8]) -> CaseResult + Sync,
 {
+    // Crash isolation (see vcheck's supervisor): every shard leaves the bytes
+    // of the case it is about to run in VERIF_CURRENT_DIR, so that a case that
+    // kills the whole process (abort in a destructor, stack overflow) can be
+    // identified afterwards; VERIF_ONLY_BYTES/VERIF_ONLY_CALL re-run exactly
+    // one such case instead of the generated search.
+    let call_no = DRIVE_CALLS.fetch_add(1, Ordering::SeqCst);
+    let current_dir = std::env::var_os("VERIF_CURRENT_DIR").map(PathBuf::from);
+    let f = move |bytes: &[u8]| -> CaseResult {
+        if let Some(d) = &current_dir {
+            let name = format!(
+                "call{call_no}-{}.bin",
+                std::thread::current().name().unwrap_or("main")
+            );
+            let _ = std::fs::write(d.join(name), bytes);
+        }
+        f(bytes)
+    };
     // a panicking case is a failing case, wherever the case function is called
     let f = move |bytes: &[u8]| -> CaseResult {
         match std::panic::catch_unwind(std::panic::AssertUnwindSafe(|| f(bytes))) {
@@ -148,6 +168,25 @@ where
         }
     };
     crate::util::install_panic_hook();
+    if let Some(path) = std::env::var_os("VERIF_ONLY_BYTES") {
+        let only_call: usize = std::env::var("VERIF_ONLY_CALL")
+            .ok()
+            .and_then(|s| s.parse().ok())
+            .unwrap_or(0);
+        let mut stats = Stats::default();
+        if only_call != call_no {
+            return (stats, None, BTreeMap::new());
+        }
+        let bytes = std::fs::read(path).expect("VERIF_ONLY_BYTES unreadable");
+        let r = f(&bytes);
+        stats.evaluations = 1;
+        let failure = r.violation.map(|message| Failure {
+            bytes,
+            message,
+            signature: r.signature,
+        });
+        return (stats, failure, BTreeMap::new());
+    }
     let n = SHARDS_OVERRIDE.with(std::cell::Cell::get).unwrap_or_else(shards) as u64;
     let total_cases = std::env::var("VERIF_CASES")
         .ok()
